@@ -1,4 +1,4 @@
-\* exhaustive design check, quick tier: three worlds, argument lists <= 2, every family, one transaction
+\* exhaustive design check, quick tier: four worlds (WQuick), argument lists <= 2, one transaction
 SPECIFICATION Spec
 CONSTANTS
   Worlds <- WQuick
